@@ -257,7 +257,6 @@ package shimagent
 //@ ghost func cblob(c *certificate) int = contentOf(elems(c.Blob), off(c.Blob), len(c.Blob))
 //@ func marshalAgentKey(key)
 //@   requires key != nil && pl(key) != 0
-//@   modifies addrof(key).Comment
 //@   ensures result != nil
 //@   ensures typeof(key) == *certificate ==> (akBlob(result) == cblob(key.(*certificate)) && result.Comment == key.(*certificate).Comment)
 //@   ensures typeof(key) != *agent.Key ==> (fresh(result) && akBlob(result) == blobid(key))
